@@ -9,6 +9,10 @@ pub mod c02;
 pub mod c03;
 pub mod c04;
 pub mod c05;
+pub mod c07;
+pub mod c10;
+pub mod c11;
+pub mod c12;
 
 #[derive(Clone, Debug, serde::Serialize, serde::Deserialize)]
 pub struct Violation {
@@ -52,6 +56,10 @@ pub fn check(case: &Case, out: &RunOutput) -> Verdict {
         Family::C03 => c03::check(&v, &mut vd),
         Family::C04 => c04::check(&v, &mut vd),
         Family::C05 => c05::check(&v, &mut vd),
+        Family::C07 => c07::check(&v, &mut vd),
+        Family::C10 => c10::check(&v, &mut vd),
+        Family::C11 => c11::check(&v, &mut vd),
+        Family::C12 => c12::check(&v, &mut vd),
         _ => {}
     }
     vd
